@@ -144,6 +144,8 @@ def items(tier: str, seed: int) -> list[dict]:
                     for pos in POSITIONS:
                         for method in _methods(part):
                             add(part, first, pos, method, second=second)
+    # 5. the command as the engine records it for failed checks (incl. checks that report on a case they derived)
+    out.extend(dict(sc) for sc in ENGINE_SCENARIOS)
     return out
 
 
@@ -194,7 +196,8 @@ class _Recorder(socketserver.StreamRequestHandler):
             body = self.rfile.read(int(lower["content-length"]))
         with self.server.lock:
             self.server.records.append({"line": line, "headers": headers, "body": body, "folded": folded})
-        self.wfile.write(b"HTTP/1.1 200 OK\r\nContent-Length: 0\r\nConnection: close\r\n\r\n")
+        status = b"500 Internal Server Error" if b"/fail" in line.split(b"?")[0] else b"200 OK"
+        self.wfile.write(b"HTTP/1.1 " + status + b"\r\nContent-Length: 0\r\nConnection: close\r\n\r\n")
 
 
 class _Server(socketserver.ThreadingTCPServer):
@@ -436,7 +439,115 @@ def _wire(record: dict, port: int) -> dict:
     return _port_free({"line": record["line"], "headers": [list(h) for h in record["headers"]], "body": record["body"]}, port)
 
 
+ENGINE_SCENARIOS = [
+    # (how credentials are configured, generation of the rest)
+    {"kind": "engine", "auth": "header", "op": "sec"},
+    {"kind": "engine", "auth": "set_query", "op": "sec"},
+    {"kind": "engine", "auth": "none", "op": "fail"},
+    {"kind": "engine", "auth": "header", "op": "fail"},
+]
+
+
+def engine_document() -> dict:
+    string = {"type": "string"}
+    return {
+        "openapi": "3.0.2", "info": {"title": "c09e", "version": "1"},
+        "components": {"securitySchemes": {"K": {"type": "apiKey", "in": "query", "name": "api_key"},
+                                           "B": {"type": "http", "scheme": "bearer"}}},
+        "paths": {
+            "/e/sec": {"get": {"security": [{"K": []}, {"B": []}],
+                               "parameters": [{"name": "q", "in": "query", "schema": {"type": "string", "enum": ["a b", "x'y"]}}],
+                               "responses": {"200": {"description": "OK"}, "401": {"description": "NO"}}}},
+            "/e/fail": {"get": {"parameters": [{"name": "q", "in": "query", "schema": {"type": "string", "enum": ["a b", "it's"]}},
+                                               {"name": "X-T", "in": "header", "schema": {"type": "string", "enum": ["v 1"]}}],
+                                "responses": {"200": {"description": "OK"}}}},
+        },
+    }
+
+
+def check_engine_item(item: dict, tier: str) -> Result:
+    """The 'Reproduce with' command as the ENGINE records it for a failed check (code_sample), incl. failures that a check
+    reports on a case it derived itself (ignored_auth strips / replaces credentials)."""
+    import schemathesis
+    from schemathesis.checks import not_a_server_error
+    from schemathesis.core.output import OutputConfig
+    from schemathesis.engine import from_schema
+    from schemathesis.generation.overrides import Override
+    from schemathesis.specs.openapi.checks import ignored_auth
+
+    from mc import engine as mc_engine
+
+    init_worker()
+    res = Result()
+    server: _Server = _W["http"]
+    port = server.port
+    doc = engine_document()
+    keep = "/e/sec" if item["op"] == "sec" else "/e/fail"
+    doc["paths"] = {keep: doc["paths"][keep]}
+    schema = schemathesis.openapi.from_dict(doc).configure(base_url=f"http://127.0.0.1:{port}", output=OutputConfig(sanitize=False))
+    headers = {"Authorization": "Bearer SECRET"} if item["auth"] == "header" else {}
+    override = Override(query={"api_key": "QSECRET"}, headers={}, cookies={}, path_parameters={}) if item["auth"] == "set_query" else None
+    config = mc_engine.make_config(phases=["fuzzing"], max_examples=3, checks=[not_a_server_error, ignored_auth], headers=headers, override=override)
+    server.drain()
+    events = list(from_schema(schema, config=config).execute())
+    res.evaluations += 1
+    records = [r for r in server.drain() if not r.get("error")]
+    by_case_id: dict[str, dict] = {}
+    for r in records:
+        cid = next((v for k, v in r["headers"] if k.lower() == "x-schemathesis-testcaseid"), None)
+        if cid is not None:
+            by_case_id[cid] = r
+    failed = []
+    for e in events:
+        if type(e).__name__ == "ScenarioFinished":
+            for case_id, checks in e.recorder.checks.items():
+                for c in checks:
+                    if c.failure_info is not None:
+                        failed.append((c.name, case_id, c.failure_info.code_sample))
+    res.states += len(records)
+    if not failed:
+        res.outcomes.add("engine_no_failure")
+        res.count("engine_runs_without_failure")
+        return res
+    seen = set()
+    for name, case_id, command in failed:
+        if (case_id, command) in seen:
+            continue
+        seen.add((case_id, command))
+        original = by_case_id.get(case_id)
+        sig_base = {"part": "engine_code_sample", "check": name, "auth": item["auth"]}
+        detail = {"item": item, "case_id": case_id, "command": _port_free(command, port)}
+        if original is None:
+            res.violation({**sig_base, "lost": "original_request_of_failing_case_not_on_the_wire"}, detail)
+            continue
+        try:
+            proc = subprocess.run(["sh", "-c", command], stdin=subprocess.DEVNULL, capture_output=True, timeout=CURL_TIMEOUT_S, cwd="/", env=ENV)
+        except subprocess.TimeoutExpired:
+            res.oracle_errors.append({"error": "curl timeout (engine item)", "command": detail["command"]})
+            continue
+        res.count("curl_runs")
+        res.traces += 1
+        reproduced = [r for r in server.drain() if not r.get("error")]
+        res.nontriv([item, name, detail["command"]])
+        res.count(f"engine_code_samples_judged:{name}")
+        if len(reproduced) != 1:
+            res.violation({**sig_base, "lost": "request", "requests": len(reproduced), "curl_exit": proc.returncode}, detail)
+            continue
+        res.transitions += 1
+        differences = compare(original, reproduced[0], sanitize=False)
+        if not differences:
+            res.outcomes.add("engine_reproduced")
+            continue
+        res.outcomes.add("engine_differs")
+        for lost, facts, info in differences:
+            res.violation({**sig_base, "lost": lost, **facts},
+                          detail | {"difference": _port_free(info, port), "original": _wire(original, port), "reproduced": _wire(reproduced[0], port)})
+    return res
+
+
 def check_item(item: dict, tier: str) -> Result:
+    if item.get("kind") == "engine":
+        return check_engine_item(item, tier)
     init_worker()
     res = Result()
     server: _Server = _W[item["scheme"]]
